@@ -42,6 +42,9 @@ CHECKS = {
  "C17": ("must-hold lock-state dataflow on the driver's connection cache + same-critical-section path search (no unlock between lookup, OpenIndex and insert) + must-pass-through of the eviction before Index.Close",
          "Static, for every open/close/concurrent-use history: cache accesses hold the driver mutex; lookup, index open, insert and refcount increment form one exclusive critical section; the last Close evicts the connection in the critical section of the decrement before closing the index.",
          "Not decided: row correctness on an open handle (C12); two DSNs naming one file with different options (second open blocks on bbolt's flock; see DESIGN.md). Trusted: database/sql's calling conventions, bbolt flock.", "DESIGN.md §4 C17"),
+ "C07": ("SSA provenance of the returned/stored/deleted entries (key matching) + must-pass-through of MoveToFront and of the eviction loop + term-set agreement of all byte-counter updates + path rules for the metric counters",
+         "Static, for all Put/Get sequences and capacities: Get returns the bitmap found under the requested key; every use moves the element to the front and eviction removes the back; all counter updates use the same cost expression and the item size is refreshed whenever a bitmap is stored (also on overwrite); every increase is followed by the eviction loop, which runs while over capacity and non-empty; call/hit/miss counters are incremented exactly once on the matching paths.",
+         "Not decided: that GetSizeInBytes equals the real memory size; 'nothing evicted while everything fits' as arithmetic. Trusted: container/list.", "DESIGN.md §4 C07"),
  "C08": ("effect analysis: census of stores/map updates/mutating calls over everything reachable from Execute, with local freshness (ownership) analysis",
          "Static, for all queries and execution histories: no instruction reachable from Execute writes a field of Query or of an expression node, or memory reachable from one, unless that memory was allocated during the call. Sufficient for 'caller-visible fields unchanged' under the stated trusted base.",
          "Not decided: equality of repeated results (needs C03.pure + determinism). Trusted: no reflection/unsafe in the reachable set (asserted), go/ssa, call graph.", "DESIGN.md §4 C08"),
